@@ -198,6 +198,8 @@ let bits_eq a b =
 
 (* steps compared bit for bit / with the tolerance (printed on stderr at the end) *)
 let n_exact = ref 0 and n_tol = ref 0
+(* cases outside the quantifier of the properties (verdict `OK skipped:...`) *)
+let n_outside = ref 0
 
 let dy_exn name = function Some d -> d | None -> failwith ("non-finite " ^ name)
 
@@ -226,22 +228,20 @@ let () =
             let rows64 = List.map (List.map f64_of_f32) mat32 in
             let bg64 = List.map f64_of_f32 bg32 in
             let ofields = List.map kv (String.split_on_char ' ' obs) in
-            if obs = "bgerr" then "OK"
+            (* the harness could not build the input (Background::new rejected the frequencies): the generator only
+               emits backgrounds the library accepts, so this is a change of the constructor contract, not a skip *)
+            if obs = "bgerr" then "DIFF input-rejected-by-Background::new"
             else begin
               (* the quantifier of the properties: finite non-wildcard cells; the wildcard
                  cell may be finite or -inf *)
               let k = List.length bg32 in
+              (* the rows of the exact reference: extracted [wrows_of] (coq/tfm/TfmRef.v; None = outside the
+                 quantifier; C12_reference_rows / C12_reference_skips) *)
+              if not (List.for_all (fun row -> List.length row = k) mat32) then failwith "row-length";
+              let bgdy0 = List.map (fun b -> dy_exn "background" (f32_to_dy b)) bg32 in
               let outside = ref false in
-              let wrows = List.map (fun row ->
-                  List.concat (List.mapi (fun j c ->
-                      match f32_to_dy c with
-                      | Some d ->
-                          let b = dy_exn "background" (f32_to_dy (List.nth bg32 j)) in
-                          if j < k - 1 || not (Z.eqb (fst b) Z0) then [(d, b)] else []
-                      | None ->
-                          if j < k - 1 || not (f32_is_neg_inf c) then outside := true;
-                          []) row)) mat32 in
-              if !outside || m < 2 then "OK"
+              let wrows = match wrows_of mat32 bgdy0 with Some r -> r | None -> outside := true; [] in
+              if !outside || m < 2 then begin incr n_outside; "OK skipped:outside-the-quantifier" end
               else begin
                 (* exact reference: all words, or (wide motifs on a grid, `ref=conv`) the convolution
                    with equal scores merged -- proved to give the same checker verdicts
@@ -366,6 +366,7 @@ let () =
                                 | OIt o when o.conv ->
                                     if not (close (float_of_f64 o.lo) (float_of_f64 f)) then df "final-pvalue-differs-from-converged-iteration"
                                 | _ -> ()) oits
+                        | None, _, _ -> df "final-pvalue-without-a-converged-iteration"
                         | _ -> pf "c12 final-pvalue non-finite"))
                 end else begin
                   (* C13 *)
@@ -375,7 +376,7 @@ let () =
                    | Ok (a, b), s when s <> "-" ->
                        (match String.split_on_char ':' s with
                         | [a'; b'] -> if not (Z.eqb a (z_of_string a') && Z.eqb b (z_of_string b')) then df "initial-window"
-                        | _ -> ())
+                        | _ -> df "initial-window-unparsable")
                    | _ -> ());
                   let model = match w0m with
                     | Ok w -> f64_sc_run_ord (nat_of_int steps) (ordss_of oits) rows64 perm bg64 q f64_tenth_c w
@@ -489,7 +490,7 @@ let () =
                                    if not (bits_eq it.io_score f) then
                                      df (Printf.sprintf "final-score impl=%h model=%h" (float_of_f64 f) (float_of_f64 it.io_score))
                                | _ -> df "final-score model-did-not-converge")
-                        | None -> ()))
+                        | None -> df "final-score-without-a-converged-iteration"))
                 end;
                 (* a property failure on a case where the implementation also deviates from the
                    model cannot be attributed to a known (= modelled) defect: say so in the detail,
@@ -510,4 +511,4 @@ let () =
     done
   with End_of_file ->
     if Sys.getenv_opt "TFM_DRIVER_STATS" <> None then
-      Printf.eprintf "steps compared bit-exactly: %d, with tolerance: %d\n" !n_exact !n_tol
+      Printf.eprintf "steps compared bit-exactly: %d, with tolerance: %d; cases outside the quantifier (skipped): %d\n" !n_exact !n_tol !n_outside
